@@ -13,10 +13,12 @@ import (
 
 func (api *API) mapDecode(ctx context.Context, mapVal any, value reflect.Value, ts TypeSettings, opts *options) (err error) {
 	// the same limit as for the binary form (see maxDecodeDepth): the recursion follows the nesting of the input
-	if opts.decodeDepth++; opts.decodeDepth > maxDecodeDepth {
-		return ierrors.Errorf("exceeded the maximum nesting depth of %d", maxDecodeDepth)
+	if countsAsNestingLevel(value.Type()) {
+		if opts.decodeDepth++; opts.decodeDepth > maxDecodeDepth {
+			return ierrors.Errorf("exceeded the maximum nesting depth of %d", maxDecodeDepth)
+		}
+		defer func() { opts.decodeDepth-- }()
 	}
-	defer func() { opts.decodeDepth-- }()
 
 	var deserializable DeserializableJSON
 
